@@ -39,10 +39,28 @@ pub fn load_findings() -> Vec<Finding> {
 
 /// a signature pattern matches if equal, or if it ends with '*' and is a prefix
 pub fn sig_matches(pattern: &str, sig: &str) -> bool {
-    match pattern.strip_suffix('*') {
-        Some(p) => sig.starts_with(p),
-        None => pattern == sig,
+    // glob with '*' (any run of characters)
+    let parts: Vec<&str> = pattern.split('*').collect();
+    if parts.len() == 1 {
+        return pattern == sig;
     }
+    let mut rest = sig;
+    for (i, p) in parts.iter().enumerate() {
+        if i == 0 {
+            if !rest.starts_with(p) {
+                return false;
+            }
+            rest = &rest[p.len()..];
+        } else if i == parts.len() - 1 {
+            return rest.ends_with(p);
+        } else {
+            match rest.find(p) {
+                Some(at) => rest = &rest[at + p.len()..],
+                None => return false,
+            }
+        }
+    }
+    true
 }
 
 /// which known finding (status known) does this violating outcome belong to?
